@@ -534,9 +534,17 @@ class Item:
             self.ctx.count(rule)
         return self
 
-    def custom(self, rule, old, new, count=1):
-        """a logged one-off textual rewrite (listed verbatim in the evidence)"""
+    def custom(self, rule, old, new, count=1, optional=False):
+        """a logged one-off textual rewrite (listed verbatim in the evidence).
+        optional=True (rule R-OPTIONAL): the rewrite only brings a construct into Verus' subset (`x.clone()` on a reader, a
+        wildcard loop variable); when the construct is no longer in the source there is nothing to rewrite, so an absent
+        anchor is logged and skipped instead of being a lost anchor.  If what replaced it is outside the subset, Verus
+        rejects the text (exit 2); if it is inside, the contract judges it."""
         assert self.base is None
+        if optional and self.text.count(old) < 1:
+            self.ctx.custom.append(('R-OPTIONAL(skipped:' + rule + ')', self._where(''), old, '(anchor absent; nothing rewritten)'))
+            self.ctx.count('R-OPTIONAL')
+            return self
         if self.text.count(old) < 1:
             raise Lost(f'{self._where("")}: custom rewrite anchor `{old[:60]}` not found')
         self.text = self.text.replace(old, new, count)
@@ -612,6 +620,22 @@ class Item:
         self.text = ins(text + '\n') + self.text
         return self
 
+    def _find_anchor(self, body, stmt, name):
+        """locate the statement a ghost hint is anchored on.  `stmt` is the verbatim statement text, or a tuple of alternative
+        spellings of the same program point (first one present wins), or an `Opt(..)` (of either): a hint that only helps
+        the proof of code that may legitimately disappear; when absent the hint is dropped and logged (R-OPTIONAL).
+        Anything else that is absent is a lost anchor (exit 2)."""
+        alts = list(stmt) if isinstance(stmt, (tuple, list)) else [stmt]
+        for a in alts:
+            idx = body.find(a)
+            if idx >= 0:
+                return idx, a
+        if isinstance(stmt, Opt) or any(isinstance(a, Opt) for a in alts):
+            self.ctx.custom.append(('R-OPTIONAL(skipped hint)', self._where(name), ' | '.join(alts), '(anchor absent; hint dropped)'))
+            self.ctx.count('R-OPTIONAL')
+            return None, None
+        raise Lost(f'splice: anchor `{alts[0]}` in {self._where(name)}')
+
     def splice(self, name, ret=None, requires=None, ensures=None, loops=None, before=None, after=None,
                decreases=None, nth=0, canary=None, owners=None, opens=None, attrs=None, recommends=None,
                no_unwind=False, split=0):
@@ -669,19 +693,25 @@ class Item:
             spec += '  no_unwind\n'
         if opens:
             spec = '  opens_invariants none\n' + spec
+        if loops and not _has_loop(body):
+            # R-NOLOOP: the function no longer contains any loop: a loop invariant has nothing to attach to and a loop-free
+            # body needs none; the contract itself is still spliced and judges the new body
+            self.ctx.custom.append(('R-NOLOOP', self._where(name), 'loop specs ' + repr(sorted(loops)), '(function has no loop; specs dropped)'))
+            self.ctx.count('R-NOLOOP')
+            loops = None
         if loops:
             body = splice_loops(body, loops, self._where(name))
         for stmt, ghost in (before or []):
             check_ghost(ghost)
-            idx = body.find(stmt)
-            if idx < 0:
-                raise Lost(f'splice: anchor `{stmt}` in {self._where(name)}')
+            idx, stmt = self._find_anchor(body, stmt, name)
+            if idx is None:
+                continue
             body = body[:idx] + ins(ghost + '\n') + body[idx:]
         for stmt, ghost in (after or []):
             check_ghost(ghost)
-            idx = body.find(stmt)
-            if idx < 0:
-                raise Lost(f'splice: anchor `{stmt}` in {self._where(name)}')
+            idx, stmt = self._find_anchor(body, stmt, name)
+            if idx is None:
+                continue
             idx += len(stmt)
             body = body[:idx] + ins('\n' + ghost + '\n') + body[idx:]
         pre_attr = ''
@@ -788,7 +818,23 @@ def check_ghost(g):
             i += 1
 
 
+class Opt(str):
+    """an optional hint anchor, see Item._find_anchor"""
+
+
 LOOP_RE = re.compile(r'\b(loop|while|for)\b')
+
+
+def _has_loop(body):
+    """does the (comment-stripped) function body contain a loop keyword outside spliced insertions?"""
+    i = 0
+    while True:
+        m = LOOP_RE.search(body, i)
+        if not m:
+            return False
+        if not _inside_insertion(body, m.start()):
+            return True
+        i = m.end()
 
 
 def splice_loops(body, loops, where=''):
